@@ -187,6 +187,20 @@ def run_case(case):
         out["geo_error"] = err(e)
         return out
 
+    # coordinates through the multi-process path (Proj_MP), for the geometries that have one
+    if any(c["nprocs"] > 1 for c in case["configs"]):
+        out["lonlats_mp"] = {}
+        for which, g in (("target", tgt), ("source", src)):
+            if isinstance(g, geometry.AreaDefinition):
+                try:
+                    signal.alarm(LIMIT)
+                    a, b = g.get_lonlats(nprocs=2)
+                    signal.alarm(0)
+                    out["lonlats_mp"][which] = {"lon": b64(np.asarray(a).ravel(), np.float64), "lat": b64(np.asarray(b).ravel(), np.float64)}
+                except Exception as e:
+                    signal.alarm(0)
+                    out["lonlats_mp"][which] = err(e)
+
     # the reduction mask itself, with the libm values the implementation used
     red = {}
     griddish = (geometry.GridDefinition, geometry.AreaDefinition)
